@@ -439,6 +439,7 @@ pub fn run_worker(prop: &dyn Prop, args: WorkerArgs) -> WorkerReport {
         }
         set_current(&case.key, idx);
         IN_CHECK.store(true, Ordering::SeqCst);
+        let bulk_before = (env.bulk_evals, env.bulk_nontrivial);
         let res = std::panic::catch_unwind(std::panic::AssertUnwindSafe(|| prop.check(&mut env, &case)));
         IN_CHECK.store(false, Ordering::SeqCst);
         let verdict = match res {
@@ -461,7 +462,9 @@ pub fn run_worker(prop: &dyn Prop, args: WorkerArgs) -> WorkerReport {
             }
         };
         if !mine {
-            // cross-shard determinism probe only
+            // cross-shard determinism probe only (not counted)
+            env.bulk_evals = bulk_before.0;
+            env.bulk_nontrivial = bulk_before.1;
             if let Verdict::Pass { obs, .. } = verdict {
                 rep.stride.push((h, obs));
             }
